@@ -142,9 +142,12 @@ def check_adaptive(ctx, kind, m, marked, subs, bnds, label, order=1, disjoint=Tr
     if st.problems:
         return None
     if tags_s:
-        if r.subdomains is None:
-            if not any('ubdomains invalidated' in w for w in wc.msgs):
-                ctx.fail(f'adaptive-subdomains-dropped-silently:{cname}', 'named subdomains dropped without a warning', data)
+        if r.subdomains is None or any(k not in r.subdomains for k in tags_s):
+            # C13 grants no escape: named subdomains must still cover the same regions after refined(marked)
+            warned = any('ubdomains invalidated' in w for w in wc.msgs)
+            ctx.fail(f'adaptive-subdomains-dropped:{cname}',
+                     'named subdomains dropped by refined(marked) (' + ('with' if warned else 'WITHOUT') + ' a warning)',
+                     {**data, 'warned': warned})
         else:
             for name, ixs in tags_s.items():
                 want = st.expected_subdomain(ixs)
